@@ -4708,6 +4708,9 @@ struct Builder<'a, 'graph> {
   graph: &'graph mut ModuleGraph,
   state: PendingState<'a>,
   fill_pass_mode: FillPassMode,
+  /// What the graph was filled with from the lockfile before the first
+  /// build; kept when the build restarts.
+  lockfile_state: Option<(PackageSpecifiers, BTreeMap<ModuleSpecifier, ModuleSpecifier>)>,
   executor: &'a dyn Executor,
   resolved_roots: BTreeSet<ModuleSpecifier>,
 }
@@ -4721,6 +4724,12 @@ impl<'a, 'graph> Builder<'a, 'graph> {
     let fill_pass_mode = match graph.roots.is_empty() {
       true => FillPassMode::AllowRestart,
       false => FillPassMode::NoRestart,
+    };
+    let lockfile_state = match fill_pass_mode {
+      FillPassMode::AllowRestart => {
+        Some((graph.packages.clone(), graph.redirects.clone()))
+      }
+      _ => None,
     };
     Self {
       in_dynamic_branch: options.is_dynamic,
@@ -4753,6 +4762,7 @@ impl<'a, 'graph> Builder<'a, 'graph> {
         ..Default::default()
       },
       fill_pass_mode,
+      lockfile_state,
       executor: options.executor,
       resolved_roots: Default::default(),
     }
@@ -5393,7 +5403,12 @@ impl<'a, 'graph> Builder<'a, 'graph> {
     imports: Vec<ReferrerImports>,
   ) -> LocalBoxFuture<'_, ()> {
     // if restarting is allowed, then the graph will have been empty at the start
+    // apart from what was filled in from the lockfile
     *self.graph = ModuleGraph::new(self.graph.graph_kind);
+    if let Some((packages, redirects)) = &self.lockfile_state {
+      self.graph.packages = packages.clone();
+      self.graph.redirects = redirects.clone();
+    }
     self.state = PendingState::default();
     self.fill_pass_mode = FillPassMode::CacheBusting;
 
